@@ -26,6 +26,17 @@ def gen(tier, rng):
     for tt in D.TT + ["BEARER", "bearer\u0000", "Mac", "mAc", "MACx"]:
         out.append((D.decode_line("token", False, D.render(D.obj([("access_token", "a"), ("token_type", tt)]), rng)), "token-type-case"))
     out += c05.source_literal_http(kinds, rng)
+    # the device-flow token request: a conforming success document answering a poll that was sent before the deadline is
+    # accepted, however late the clock is by the time the reply has arrived (no clock reading follows a decisive reply)
+    from gen import poll as P
+    for var in ("sync", "async:0", "async:2"):
+        for pre in ([], ["pending"], ["slow", "fail"]):
+            t0 = 1700000000 * P.NS
+            ex = 30
+            late = t0 + (ex + 6) * P.NS
+            clock = [t0] + [t0 + (j + 1) * P.NS for j in range(len(pre))] + [t0 + 25 * P.NS] + [late] * 3
+            out.append((P.line(var, "1", None, None, ex, True, clock, pre + ["success"]), "device-token-late-clock"))
+            out.append((P.line(var, "1", None, 30 * P.NS, 10 ** 6, True, clock, pre + ["success"]), "device-token-late-clock"))
     # large, valid documents through a 200 reply (around and beyond 64 KiB): accepted like small ones
     for size in (65000, 65537, 70000):
         m_, known_ = D.family_doc("token", rng, False)
